@@ -117,18 +117,9 @@ func pipeRules(c *Ctx) {
 			if cd.Kind == core.CondBool {
 				// the call's own `if err := f(); err != nil` wrapper does not count
 				errOnly = false
-				pol := ""
-				if cd.Neg {
-					pol = "!"
-				}
-				// fields of the options are named canonically ("opts.<Field>") whatever the parameter is called
-				txt := exprStr(cd.Expr)
-				if sel, isSel := core.Unparen(cd.Expr).(*ast.SelectorExpr); isSel {
-					if fv := core.FieldOf(info, sel); fv != nil && strings.HasSuffix(core.OwnerStruct(c.P, fv), ".FlattenOpts") {
-						txt = "opts." + fv.Name()
-					}
-				}
-				others = append(others, pol+txt)
+				// fields of the options are named canonically ("opts.<Field>") whatever the parameter is called; a
+				// predicate of the options (`opts.fullFlatten()`) stands for the conjunction it returns
+				others = append(others, c.optsCondTexts(flat, cd.Expr, cd.Neg, 0)...)
 			}
 		}
 		sort.Strings(others)
@@ -336,6 +327,29 @@ func (c *Ctx) pipeClone(namer, clone, save *core.FuncInfo) {
 			rewriteCall = call
 		}
 	}
+	// the save may sit in an unexported helper that is handed the schema to save: the saved value is then the
+	// namer's argument at that position, the save happens where the helper is called
+	var savedExpr ast.Expr
+	if saveCall != nil {
+		savedExpr = saveCall.Args[len(saveCall.Args)-1]
+	} else {
+		for _, call := range calls(namer.Decl.Body) {
+			h := c.P.Funcs[c.P.StaticCallee(namer, call)]
+			if h == nil || h.Obj.Exported() || h.Decl.Body == nil {
+				continue
+			}
+			for _, inner := range calls(h.Decl.Body) {
+				if c.P.StaticCallee(h, inner) != save.Obj || len(inner.Args) == 0 {
+					continue
+				}
+				if po := core.ObjOf(c.info(h), inner.Args[len(inner.Args)-1]); po != nil {
+					if idx, isParam := c.paramIndexOf(h, po); isParam && idx < len(call.Args) {
+						saveCall, savedExpr = call, call.Args[idx]
+					}
+				}
+			}
+		}
+	}
 	if saveCall == nil || rewriteCall == nil {
 		c.S.Undecided("C01", "PIPE-CLONE", "anchor", c.P.Pos(namer.Decl.Pos()), "the namer no longer calls schutils.Save and replace.RewriteSchemaToRef")
 		return
@@ -351,7 +365,7 @@ func (c *Ctx) pipeClone(namer, clone, save *core.FuncInfo) {
 	why := "the schema saved as the new definition is not a clone of the inline schema"
 	if cloneCall != nil && len(cloneCall.Args) == 1 && core.ObjOf(info, cloneCall.Args[0]) == schemaParam && schemaParam != nil {
 		// the saved value is the variable holding the clone
-		saved := core.ObjOf(info, saveCall.Args[len(saveCall.Args)-1])
+		saved := core.ObjOf(info, savedExpr)
 		isClone := false
 		for _, d := range c.P.Locals(namer).Defs[saved] {
 			if d.Kind == core.DefAssign && core.Unparen(d.Expr) == ast.Expr(cloneCall) {
@@ -360,7 +374,7 @@ func (c *Ctx) pipeClone(namer, clone, save *core.FuncInfo) {
 		}
 		switch {
 		case !isClone:
-			why = "schutils.Save receives " + exprStr(saveCall.Args[len(saveCall.Args)-1]) + ", which is not the clone of the inline schema"
+			why = "schutils.Save receives " + exprStr(savedExpr) + ", which is not the clone of the inline schema"
 		case cloneCall.Pos() > rewriteCall.Pos():
 			why = "the clone is taken after the holder has been rewritten to a $ref: the saved definition is a $ref to itself"
 		default:
@@ -384,6 +398,46 @@ func (c *Ctx) pipeSaveName(save *core.FuncInfo) {
 		nameExpr := cs.Call.Args[1]
 		ok := false
 		why := "the name is not the result of the unique-name function"
+		// the save sits in an unexported helper that is handed the name: the obligation moves to the helper's call
+		// sites, where the name and the document are the caller's
+		if po := core.ObjOf(info, nameExpr); po != nil && !fi.Obj.Exported() {
+			if idx, isParam := c.paramIndexOf(fi, po); isParam {
+				sites, good := 0, 0
+				firstWhy := ""
+				for _, cs2 := range c.P.CG().In[fi.Obj] {
+					if cs2.Call == nil || cs2.Caller == nil || c.P.StaticCallee(cs2.Caller, cs2.Call) != fi.Obj || idx >= len(cs2.Call.Args) {
+						continue
+					}
+					sites++
+					docStr := exprStr(cs.Call.Args[0])
+					if rid, hasRecv := rootOfRecv(fi); hasRecv {
+						if sel, isSel := core.Unparen(cs2.Call.Fun).(*ast.SelectorExpr); isSel {
+							docStr = strings.Replace(" "+docStr, " "+rid.Name+".", " "+exprStr(sel.X)+".", 1)[1:]
+						}
+					}
+					def := c.designatorDef(cs2.Caller, cs2.Call.Args[idx], cs2.Call.Pos())
+					if def != nil && def.index == 0 {
+						if call, isCall := core.Unparen(def.rhs).(*ast.CallExpr); isCall {
+							if okc, w := c.uniqueAgainst(cs2.Caller, call, docStr); okc {
+								good++
+								continue
+							} else if firstWhy == "" {
+								firstWhy = w
+							}
+						}
+					}
+				}
+				if sites > 0 {
+					if good != sites && firstWhy != "" {
+						why = firstWhy
+					}
+					c.S.Decide(good == sites, "C03", "PIPE-SAVE-NAME", fi.QName(), c.P.Pos(cs.Call.Pos()),
+						"the saved name is the result of the unique-name function applied to the same document's definitions (at every call site of the saving helper)",
+						"a definition is saved under "+exprStr(cs.Call.Args[1])+": "+why+" — an existing definition can be overwritten")
+					continue
+				}
+			}
+		}
 		// flow-sensitive: the definition of the name (a local, or a field of a local record) that reaches the save
 		saveDef := c.designatorDef(fi, nameExpr, cs.Call.Pos())
 		dfi := fi
@@ -1682,4 +1736,113 @@ func (c *Ctx) stepTable(fi *core.FuncInfo, rs *ast.RangeStmt) ([]tableStep, *ast
 		out = append(out, st)
 	}
 	return out, run
+}
+
+// optsCondTexts renders a condition over the options as canonical literals: "opts.<Field>" / "!opts.<Field>" for the
+// members of FlattenOpts, conjunctions split (De Morgan for negated disjunctions), single-return boolean predicates
+// of the module expanded; anything else verbatim.
+func (c *Ctx) optsCondTexts(fi *core.FuncInfo, e ast.Expr, neg bool, depth int) []string {
+	info := c.info(fi)
+	e = core.Unparen(e)
+	pol := ""
+	if neg {
+		pol = "!"
+	}
+	switch x := e.(type) {
+	case *ast.UnaryExpr:
+		if x.Op == token.NOT {
+			return c.optsCondTexts(fi, x.X, !neg, depth)
+		}
+	case *ast.BinaryExpr:
+		if x.Op == token.LAND && !neg || x.Op == token.LOR && neg {
+			return append(c.optsCondTexts(fi, x.X, neg, depth), c.optsCondTexts(fi, x.Y, neg, depth)...)
+		}
+	case *ast.SelectorExpr:
+		if fv := core.FieldOf(info, x); fv != nil && strings.HasSuffix(core.OwnerStruct(c.P, fv), ".FlattenOpts") {
+			return []string{pol + "opts." + fv.Name()}
+		}
+	case *ast.CallExpr:
+		if g := c.P.Funcs[c.P.StaticCallee(fi, x)]; g != nil && depth < 3 && g.Decl.Body != nil && len(g.Decl.Body.List) == 1 {
+			if ret, ok := g.Decl.Body.List[0].(*ast.ReturnStmt); ok && len(ret.Results) == 1 && core.IsBool(c.info(g).TypeOf(ret.Results[0])) {
+				mentionsOpts := false
+				ast.Inspect(ret.Results[0], func(m ast.Node) bool {
+					if sel, isSel := m.(*ast.SelectorExpr); isSel {
+						if fv := core.FieldOf(c.info(g), sel); fv != nil && strings.HasSuffix(core.OwnerStruct(c.P, fv), ".FlattenOpts") {
+							mentionsOpts = true
+						}
+					}
+					return true
+				})
+				if mentionsOpts {
+					return c.optsCondTexts(g, ret.Results[0], neg, depth+1)
+				}
+			}
+		}
+	case *ast.Ident:
+		if o := core.ObjOf(info, x); o != nil && core.IsBool(o.Type()) && depth < 3 {
+			if defs := c.P.Locals(fi).Defs[o]; len(defs) == 1 && defs[0].Kind == core.DefAssign {
+				return c.optsCondTexts(fi, defs[0].Expr, neg, depth+1)
+			}
+		}
+	}
+	return []string{pol + exprStr(e)}
+}
+
+// uniqueAgainst: the call yields a name made unique against the definitions of the document rendered docStr: the
+// unique-name function applied to <doc>.Definitions, or the function such a unique-name function is a thin wrapper
+// of, applied to a membership test (a method value) that looks into <doc>.Definitions.
+func (c *Ctx) uniqueAgainst(fi *core.FuncInfo, call *ast.CallExpr, docStr string) (bool, string) {
+	callee := c.P.StaticCallee(fi, call)
+	if callee == nil || len(call.Args) < 1 {
+		return false, "the name is not the result of the unique-name function"
+	}
+	info := c.info(fi)
+	if c.isUniqifier(callee) {
+		if sel, isSel := core.Unparen(call.Args[0]).(*ast.SelectorExpr); isSel && sel.Sel.Name == "Definitions" && exprStr(sel.X) == docStr {
+			return true, ""
+		}
+		return false, "the name was made unique against " + exprStr(call.Args[0]) + " but is saved into " + docStr
+	}
+	// the core of a unique-name function: some function of that signature only forwards to it
+	isCore := false
+	for _, w := range c.P.SortedFuncs() {
+		if !c.isUniqifier(w.Obj) || w.Decl.Body == nil {
+			continue
+		}
+		for _, inner := range calls(w.Decl.Body) {
+			if c.P.StaticCallee(w, inner) == callee {
+				isCore = true
+			}
+		}
+	}
+	if !isCore {
+		return false, "the name is not the result of the unique-name function"
+	}
+	msel, isSel := core.Unparen(call.Args[0]).(*ast.SelectorExpr)
+	if !isSel {
+		return false, "the membership test handed to the unique-name function is not a method of the namer"
+	}
+	mo, _ := info.Uses[msel.Sel].(*types.Func)
+	m := c.P.Funcs[mo]
+	if mo == nil || m == nil || m.Decl.Body == nil {
+		return false, "the membership test handed to the unique-name function cannot be read"
+	}
+	rid, hasRecv := rootOfRecv(m)
+	found := false
+	ast.Inspect(m.Decl.Body, func(n ast.Node) bool {
+		if sel, ok := n.(*ast.SelectorExpr); ok && sel.Sel.Name == "Definitions" {
+			txt := exprStr(sel.X)
+			if hasRecv {
+				txt = strings.Replace(" "+txt, " "+rid.Name+".", " "+exprStr(msel.X)+".", 1)[1:]
+			}
+			if txt == docStr {
+				found = true
+			}
+		}
+		return true
+	})
+	if !found {
+		return false, "the membership test " + exprStr(call.Args[0]) + " does not look into the definitions of " + docStr
+	}
+	return true, ""
 }
